@@ -42,7 +42,9 @@ func (u *Unit) execInstr(fr *Frame, in ssa.Instruction, st *State, reach *Term) 
 			fr.vals[i] = Val{Loc: &Loc{Kind: LSub, Parent: px.Loc, ST: sst, SKey: key, Field: i.Field, Elem: ft}, Typ: i.Type()}
 			break
 		}
-		u.oblige("safety", *reach, not(eq(px.T, intLit(0))), "safety.nil", "", "nil dereference in field access ."+fieldName(pt, i.Field))
+		if !px.NonNil {
+			u.oblige("safety", *reach, not(eq(px.T, intLit(0))), "safety.nil", "", "nil dereference in field access ."+fieldName(pt, i.Field))
+		}
 		sst, key, ok := u.transparentStruct(pt)
 		if !ok {
 			fr.vals[i] = Val{Loc: &Loc{Kind: LOpaque, Elem: ft}, Typ: i.Type()}
@@ -138,6 +140,7 @@ func (u *Unit) execInstr(fr *Frame, in ssa.Instruction, st *State, reach *Term) 
 	case *ssa.Call:
 		res := u.execCall(fr, i, i.Common(), st, reach)
 		fr.vals[i] = res
+		u.recordCall(fr, st, i.Common(), res)
 	case *ssa.Defer:
 		if i.Call.IsInvoke() || !isNoopCall(u, &i.Call) {
 			st.defers = append(st.defers, deferred{cond: *reach, call: &i.Call, fr: fr, pos: i})
@@ -207,13 +210,16 @@ func (u *Unit) execAlloc(fr *Frame, a *ssa.Alloc, st *State) {
 	if l.Kind != LOpaque {
 		u.store(st, l, Val{T: u.zeroOf(elem), Typ: elem})
 	}
-	fr.vals[a] = Val{T: r, Typ: a.Type()}
+	fr.vals[a] = Val{T: r, Typ: a.Type(), NonNil: true}
 }
 
 // derefLoc returns the location a pointer value designates, with a nil check for pointer terms.
 func (u *Unit) derefLoc(fr *Frame, st *State, p Val, ptrType types.Type, reach Term, what string) *Loc {
 	if p.Loc != nil {
 		return p.Loc
+	}
+	if p.NonNil {
+		return u.pointerLoc(st, p, ptrType)
 	}
 	u.oblige("safety", reach, not(eq(p.T, intLit(0))), "safety.nil", "", "nil dereference ("+what+")")
 	return u.pointerLoc(st, p, ptrType)
